@@ -301,6 +301,8 @@ def preserved_lines(steps):
     lines = []
     for s in steps:
         ok = "1" if s.outcome.startswith("ok:") else "0"
+        if s.post.startswith("SNAPFAIL"):
+            s = s._replace(post=s.pre)
         lines.append("fs preserved " + " ".join(tree_tokens(s.pre) + tree_tokens(s.post) + [ok] + fsops.encode(s.op)))
     return lines
 
@@ -398,6 +400,128 @@ def run_cross(case, kinds):
     return Step(name, 0, 0, op, pre, out, post), (fn, sp, dp, pt)
 
 
+def transfer_relation(step):
+    """Narrow class of a failing transfer: used as the known-finding signature."""
+    import fs.path as P
+    o = step.op
+    if o[0] not in ("move", "copy", "movedir", "copydir"):
+        return None
+    try:
+        a, b = P.abspath(P.normpath(o[1])), P.abspath(P.normpath(o[2]))
+    except Exception:
+        return None
+    if a == b:
+        return "source and destination are the same resource (reached through two filesystem objects)" \
+            if "->" in step.backend else None
+    if P.isbase(a, b) and "->" in step.backend and o[0] in ("movedir", "copydir"):
+        return "destination inside the source, reached through two filesystem objects (no IllegalDestination, runs away)"
+    if P.isbase(b, a) and o[0] in ("movedir", "copydir"):
+        # destination is an ancestor of the source: does the source contain an entry that lands on the source itself?
+        rest = P.frombase(b if b != "/" else "/", a).strip("/").split("/")
+        names = set(p2[len(a):].strip("/").split("/")[0] for p2, _k, _d in fsops.tree_paths(step.pre)
+                    if p2.startswith(a.rstrip("/") + "/"))
+        if rest and rest[0] in names:
+            return "destination is an ancestor of the source and the source contains an entry named like its own path component"
+    return None
+
+
+def view_cases(rnd, n):
+    """Transfers between two filesystem objects over ONE storage (a filesystem and its SubFS view, two
+    SubFS views, two OSFS on one directory)."""
+    out = []
+    for _ in range(n):
+        g = genhist.Gen(rnd, odd=0.0, spell=0.0)
+        hist = [g.setup_op() for _ in range(rnd.randint(2, 8))]
+        for o in hist:
+            fsops.execute(g.shadow, o)
+        files, dirs = g.existing()
+        kind = rnd.choice(["mem", "mem", "os", "os2"])
+        sv = rnd.choice(dirs)
+        dv = rnd.choice(dirs)
+        fn = rnd.choice(["copy_file", "move_file", "copy_file", "move_file", "copy_dir", "move_dir"])
+
+        def rel_to(view, cands):
+            inside = [c for c in cands if c == view or c.startswith(view.rstrip("/") + "/")]
+            c = rnd.choice(inside) if inside else None
+            return None if c is None else "/" + c[len(view.rstrip("/")):].lstrip("/")
+        if fn in ("copy_file", "move_file"):
+            sp = rel_to(sv, files)
+            dp = rel_to(dv, files + [d.rstrip("/") + "/new" for d in dirs]) if rnd.random() < 0.8 else "/newfile"
+            if sp is not None and rnd.random() < 0.3:      # the very same file through the other view
+                full = sv.rstrip("/") + "/" + sp.lstrip("/")
+                if full == dv or full.startswith(dv.rstrip("/") + "/"):
+                    dp = "/" + full[len(dv.rstrip("/")):].lstrip("/")
+        else:
+            sp = rel_to(sv, [d for d in dirs if d != "/"])
+            dp = rel_to(dv, dirs) if rnd.random() < 0.7 else "/newdir"
+        if sp is None or dp is None:
+            continue
+        out.append((hist, kind, sv, dv, fn, sp, dp))
+    return out
+
+
+def run_view(case):
+    import shutil
+    import tempfile
+    import fs.move
+    import fs.copy
+    from fs.memoryfs import MemoryFS
+    from fs.osfs import OSFS
+    hist, kind, sv, dv, fn, sp, dp = case
+    tmp = None
+    if kind == "mem":
+        parent = MemoryFS()
+        snap = lambda: fsops.snap_memoryfs(parent)
+        second = parent
+    else:
+        tmp = tempfile.mkdtemp(prefix="pyfs2verif_")
+        parent = OSFS(tmp)
+        snap = lambda: B.snap_os(tmp)
+        second = OSFS(tmp) if kind == "os2" else parent
+    try:
+        for o in hist:
+            fsops.execute(parent, o)
+        sfs = parent if sv == "/" else parent.opendir(sv)
+        dfs = second if dv == "/" else second.opendir(dv)
+        pre = snap()
+        call = {"move_file": lambda: fs.move.move_file(sfs, sp, dfs, dp),
+                "copy_file": lambda: fs.copy.copy_file(sfs, sp, dfs, dp),
+                "move_dir": lambda: fs.move.move_dir(sfs, sp, dfs, dp),
+                "copy_dir": lambda: fs.copy.copy_dir(sfs, sp, dfs, dp)}[fn]
+        import signal
+        old = signal.signal(signal.SIGALRM, fsops._alarm)
+        signal.alarm(5)
+        try:
+            try:
+                call()
+                out = "ok:U"
+            except fsops.Timeout:
+                out = "crash:NonTermination"
+            except Exception as e:  # noqa
+                out = common.exc_name(e)
+        finally:
+            signal.alarm(0)
+            signal.signal(signal.SIGALRM, old)
+        try:
+            post = snap()
+        except RecursionError:
+            post = "SNAPFAIL:RecursionError (tree nested beyond the interpreter's recursion limit)"
+    finally:
+        try:
+            parent.close()
+            if second is not parent:
+                second.close()
+        except Exception:
+            pass
+        if tmp:
+            common.rm_rf(tmp)
+    S = sv.rstrip("/") + "/" + sp.lstrip("/")
+    D = dv.rstrip("/") + "/" + dp.lstrip("/")
+    op = {"move_file": ("move", S, D, True, False), "copy_file": ("copy", S, D, True, False),
+          "move_dir": ("movedir", S, D, True, False), "copy_dir": ("copydir", S, D, True, False)}[fn]
+    return Step("%s(view %s -> view %s of one %s)" % (fn, sv, dv, kind), 0, 0, op, pre, out, post), (fn, sp, dp, False)
+
+
 def symlink_scenarios():
     """OSFS trees containing a symbolic link to a directory outside the root."""
     import os
@@ -422,7 +546,7 @@ def symlink_scenarios():
                             outcome=out, target_content_intact=intact))
             fs.close()
         finally:
-            shutil.rmtree(d, ignore_errors=True)
+            common.rm_rf(d)
     return res
 
 
@@ -445,6 +569,10 @@ def run_c05(report):
         st, meta = run_cross(c, pairs[i % len(pairs)])
         cross_meta[len(steps)] = (c, meta)
         steps.append(st)
+    for c in view_cases(rnd, 1200 if thorough else 220):
+        st, meta = run_view(c)
+        cross_meta[len(steps)] = (c, meta)
+        steps.append(st)
     verdicts = common.run_model_parallel(preserved_lines(steps), chunk=3000)
     n_vm, vm_mism = common.vm_crosscheck(preserved_lines(steps[:300]), verdicts[:300], "C05", limit=60)
     # model side: the MemoryFS model satisfies the predicate on the same histories
@@ -456,13 +584,18 @@ def run_c05(report):
     bad = []
     for i, (s, v) in enumerate(zip(steps, verdicts)):
         dist[(s.op[0], "ok" if s.outcome.startswith("ok") else s.outcome)] += 1
-        if s.pre != s.post:
+        if s.pre != s.post and not s.post.startswith("SNAPFAIL"):
             nontrivial.add((s.op[0], fsops.canon_tree(s.pre), fsops.canon_tree(s.post)))
-        if v != "T" or s.outcome.startswith("crash:"):
+        if v != "T" or s.outcome.startswith("crash:") or s.post.startswith("SNAPFAIL"):
             bad.append((i, s, v))
     seen = set()
     for i, s, v in bad:
         sig = "%s.%s %s" % (s.backend, s.op[0], "predicate" if v != "T" else s.outcome)
+        rel = transfer_relation(s)
+        if rel:
+            sig = "%s %s" % (s.op[0] if i not in cross_meta else cross_meta[i][1][0], rel)
+            if " of one " in s.backend:     # view cases: the storage kind matters (OSFS has a rename shortcut)
+                sig += " [" + s.backend.split(" of one ")[1].rstrip(")") + "]"
         known = report.known_match(sig)
         if known:
             report.known_finding(known)
@@ -532,6 +665,10 @@ def run_c06(report):
                 why = "the documented condition of %s does not hold (admissible: %s)" % (s.outcome[4:], rres[5:])
         elif rres.startswith("ok:"):
             why = "fails although every precondition holds"
+        if why is None and s.op[0] in ("movedir", "copydir", "makedirs", "removetree") and rres.startswith("fail:") \
+                and not r.endswith("#ANY") and not s.post.startswith("SNAPFAIL") \
+                and fsops.canon_tree(s.pre) != fsops.canon_tree(s.post):
+            why = "a directory call rejected by its argument checks changed the tree"
         if why is None and s.op[0] in SINGLE and fsops.canon_tree(s.pre) != (
                 fsops.canon_tree(s.post) if not s.post.startswith("SNAPFAIL") else None):
             why = "a failed single-resource call changed the tree"
@@ -631,7 +768,7 @@ def render_probe():
         o.close()
     finally:
         import shutil
-        shutil.rmtree(d, ignore_errors=True)
+        common.rm_rf(d)
     return out
 
 
@@ -672,10 +809,12 @@ def query_check(fs, path, is_dir_expected=None):
                 bad.append("gettype=%s isdir=%s isfile=%s" % (gt[1], isd, isf))
             if "details" in raw and info.type != gt[1]:
                 bad.append("info.type != gettype")
-        if "details" in raw and raw["details"].get("modified") is not None:
+        if "details" in raw:
             from fs.time import epoch_to_datetime
-            if info.modified != epoch_to_datetime(raw["details"]["modified"]):
-                bad.append("info.modified is not the conversion of the raw value")
+            for key in ("modified", "accessed", "created", "metadata_changed"):
+                if raw["details"].get(key) is not None and \
+                        getattr(info, key) != epoch_to_datetime(raw["details"][key]):
+                    bad.append("info.%s is not the conversion of the raw value %r" % (key, raw["details"][key]))
         if isf:
             data = q(lambda: fs.readbytes(path))
             size = q(lambda: fs.getsize(path))
@@ -731,7 +870,7 @@ def run_c10(report):
     total = 0
     bad = []
     nontrivial = set()
-    backs = list(B.ALL) + [ReadZip, ReadTar]
+    backs = list(B.ALL) + [ReadZip, ReadTar, MultiLayered]
     per = collections.Counter()
     for bc in backs:
         for hi, h in enumerate(hs if bc in (B.Mem, B.OS) or thorough else hs[:25]):
@@ -748,6 +887,13 @@ def run_c10(report):
                         fsops.execute(fs, o)
                     if o is not None and k % 2 and not thorough:
                         continue
+                    if o is not None and bc in (B.Mem, B.OS) and k == len(seq) - 1:
+                        # raw time values at the boundary (0 is a valid epoch time)
+                        for p0, i0 in list(fs.walk.info())[:2]:
+                            try:
+                                fs.setinfo(p0, {"details": {"modified": 0, "accessed": 0}})
+                            except Exception:
+                                pass
                     paths = ["/"] + [p for p, _i in fs.walk.info()] + ["/nope", "/nope/x"]
                     for p in paths:
                         total += 1
@@ -776,6 +922,24 @@ def run_c10(report):
              "pages are compared with each other; non-trivial = distinct (backend, tree size, path, kind)",
         disagreements_checked=len(bad), per_backend=dict(per), traces_validated_against_impl=total - len(bad)),
         ["consistency is checked among the implementation's own answers; the model-level theorem is Props/C10.v"])
+
+
+class MultiLayered(B.Backend):
+    """MultiFS whose members disagree: a name that is a file above and a directory below, shadowed files."""
+    name = "MultiFS(layered, conflicting members)"
+
+    def make(self):
+        from fs.multifs import MultiFS
+        from fs.memoryfs import MemoryFS
+        self.fs = MultiFS()
+        low, high, w = MemoryFS(), MemoryFS(), MemoryFS()
+        low.makedirs("a/x"); low.writebytes("a/x/f", b"low"); low.writebytes("b", b"lowfile"); low.makedir("c")
+        high.writebytes("a", b"file-above-dir"); high.makedirs("b/y"); high.writebytes("c/z", b"hi") if False else None
+        high.makedir("d"); low.writebytes("d", b"low-d-file")
+        self.fs.add_fs("low", low, priority=0)
+        self.fs.add_fs("high", high, priority=5)
+        self.fs.add_fs("w", w, write=True, priority=1)
+        return self.fs
 
 
 class ReadZip(B.Backend):
